@@ -2,6 +2,7 @@ package main
 
 import (
 	"fmt"
+	"go/constant"
 	"go/token"
 	"go/types"
 	"sort"
@@ -458,4 +459,204 @@ func ruleRoute(p *Prog, r *Report) {
 
 func init() {
 	register("C02", "", ruleRoute)
+}
+
+// ---- R-QUANT: Contains is ALL over a constraint list and ANY over groups ---------------------------------
+//
+// Every loop on the path from Contains to the per-constraint predicate is classified as a boolean fold:
+//   AND: predicate false -> result false (return false, or flag := false and leave); otherwise go on;
+//        falling out of the loop gives true;
+//   OR:  predicate true -> result true; otherwise go on; falling out of the loop gives false.
+// A range whose data is a list of constraints must be one AND fold; a list of lists an OR of ANDs.
+
+type foldInfo struct {
+	kind string // "AND", "OR" or ""
+	why  string
+	cond ssa.Value // the per-element boolean
+}
+
+// boolOutcome: what leaving block b along edge (b -> s) yields for the enclosing computation:
+// "true"/"false" for a returned constant, "flag:<v>" when a phi at the loop exit takes constant v,
+// "continue" when the edge stays in the loop, "" otherwise.
+func edgeOutcome(l *loop, from, to *ssa.BasicBlock, depth int) string {
+	if l.body[to] {
+		// staying in the loop (possibly through a block that only sets a flag and breaks)
+		if len(to.Instrs) == 1 {
+			if _, ok := to.Instrs[0].(*ssa.Jump); ok && depth < 3 {
+				return edgeOutcome(l, to, to.Succs[0], depth+1)
+			}
+		}
+		return "continue"
+	}
+	// leaving the loop
+	if ret, ok := to.Instrs[len(to.Instrs)-1].(*ssa.Return); ok && len(to.Instrs) <= 2 && len(ret.Results) == 1 {
+		if cv, ok := ret.Results[0].(*ssa.Const); ok && cv.Value != nil && cv.Value.Kind() == constant.Bool {
+			if constant.BoolVal(cv.Value) {
+				return "true"
+			}
+			return "false"
+		}
+	}
+	for _, ins := range to.Instrs {
+		ph, ok := ins.(*ssa.Phi)
+		if !ok {
+			break
+		}
+		if !isBoolType(ph.Type()) {
+			continue
+		}
+		for i, pb := range to.Preds {
+			if pb == from {
+				if cv, ok := ph.Edges[i].(*ssa.Const); ok && cv.Value != nil && cv.Value.Kind() == constant.Bool {
+					if constant.BoolVal(cv.Value) {
+						return "flag:true"
+					}
+					return "flag:false"
+				}
+			}
+		}
+	}
+	if len(to.Instrs) == 1 && depth < 3 {
+		if _, ok := to.Instrs[0].(*ssa.Jump); ok {
+			return edgeOutcome(l, to, to.Succs[0], depth+1)
+		}
+	}
+	return ""
+}
+
+func classifyFold(l *loop) foldInfo {
+	// the branch on the per-element boolean: the only If in the body (besides the header guard) one of
+	// whose edges does not simply continue
+	var fi foldInfo
+	var tOut, fOut string
+	n := 0
+	for b := range l.body {
+		if b == l.header {
+			continue
+		}
+		iff, ok := b.Instrs[len(b.Instrs)-1].(*ssa.If)
+		if !ok {
+			continue
+		}
+		t, f := edgeOutcome(l, b, b.Succs[0], 0), edgeOutcome(l, b, b.Succs[1], 0)
+		if t == "continue" && f == "continue" {
+			continue
+		}
+		n++
+		fi.cond, tOut, fOut = iff.Cond, t, f
+	}
+	if n != 1 {
+		fi.why = fmt.Sprintf("%d deciding branches in the loop body (want one test of the per-element predicate)", n)
+		return fi
+	}
+	// through a negation
+	neg := false
+	if u, ok := fi.cond.(*ssa.UnOp); ok && u.Op == token.NOT {
+		fi.cond, neg = u.X, true
+		tOut, fOut = fOut, tOut
+	}
+	_ = neg
+	// falling out of the loop
+	exit := ""
+	for _, s := range l.header.Succs {
+		if !l.body[s] {
+			exit = edgeOutcome(l, l.header, s, 0)
+		}
+	}
+	val := func(s string) string { return strings.TrimPrefix(s, "flag:") }
+	switch {
+	case val(fOut) == "false" && tOut == "continue" && val(exit) == "true":
+		fi.kind = "AND"
+	case val(tOut) == "true" && fOut == "continue" && val(exit) == "false":
+		fi.kind = "OR"
+	default:
+		fi.why = fmt.Sprintf("predicate true -> %q, predicate false -> %q, end of list -> %q: neither an ALL nor an ANY fold", tOut, fOut, exit)
+	}
+	return fi
+}
+
+func ruleQuant(p *Prog, r *Report) {
+	for _, e := range p.Ecos {
+		key := fmt.Sprintf("%s: Contains quantifies over its constraints as the range's data shape says", e.Name)
+		// the data shape: a field of the range type that is a (nested) slice
+		depthOf := func(t types.Type) int {
+			d := 0
+			for {
+				s, ok := t.Underlying().(*types.Slice)
+				if !ok {
+					return d
+				}
+				d++
+				t = s.Elem()
+			}
+		}
+		shape := 0
+		if st, ok := e.RngT.Underlying().(*types.Struct); ok {
+			for i := 0; i < st.NumFields(); i++ {
+				if d := depthOf(st.Field(i).Type()); d > shape && !isStringType(st.Field(i).Type()) {
+					shape = d
+				}
+			}
+		}
+		// folds met from Contains down to the predicate
+		var folds []string
+		var problems []string
+		seen := map[*ssa.Function]bool{}
+		var visit func(fn *ssa.Function, depth int)
+		visit = func(fn *ssa.Function, depth int) {
+			if seen[fn] || depth > 3 {
+				return
+			}
+			seen[fn] = true
+			loops := findLoops(fn)
+			// outer loops first
+			sort.Slice(loops, func(i, j int) bool { return len(loops[i].body) > len(loops[j].body) })
+			for _, l := range loops {
+				fi := classifyFold(l)
+				if fi.kind == "" {
+					// a loop nested in another whose flag it computes is classified on its own; anything else
+					// on this path is a problem only if it contains a predicate call
+					calls := false
+					for b := range l.body {
+						for _, ins := range b.Instrs {
+							if c, ok := ins.(*ssa.Call); ok {
+								if f := c.Call.StaticCallee(); f != nil && p.IsRepoFn(f) && f.Signature.Results().Len() == 1 && isBoolType(f.Signature.Results().At(0).Type()) {
+									calls = true
+								}
+							}
+						}
+					}
+					if calls {
+						problems = append(problems, fmt.Sprintf("%s: %s", p.FnKey(fn), fi.why))
+					}
+					continue
+				}
+				folds = append(folds, fi.kind)
+				// the per-element boolean: a call into a helper that folds again?
+				if c, ok := fi.cond.(*ssa.Call); ok {
+					if f := c.Call.StaticCallee(); f != nil && p.IsRepoFn(f) && len(findLoops(f)) > 0 {
+						visit(f, depth+1)
+					}
+				}
+			}
+		}
+		visit(e.Contains, 0)
+		want := map[int]string{1: "AND", 2: "OR AND"}[shape]
+		got := strings.Join(folds, " ")
+		switch {
+		case len(problems) > 0:
+			r.Bad("R-QUANT", key, p.FnPos(e.Contains), strings.Join(problems, "; "))
+		case want == "":
+			r.Und("R-QUANT", key, p.FnPos(e.Contains), fmt.Sprintf("range data shape not recognised (slice depth %d)", shape))
+		case got != want:
+			r.Bad("R-QUANT", key, p.FnPos(e.Contains), fmt.Sprintf("the range holds a %s of constraints, so Contains must be %s; the loops found fold as [%s]", map[int]string{1: "list", 2: "list of lists"}[shape], map[string]string{"AND": "ALL of them", "OR AND": "ANY group of ALL its constraints"}[want], got))
+		default:
+			r.Ok("R-QUANT", key, p.FnPos(e.Contains), fmt.Sprintf("folds: %s (predicate false ends an ALL with false, predicate true ends an ANY with true, the end of the list gives the neutral result)", got))
+		}
+	}
+	r.Floor("R-QUANT", 20)
+}
+
+func init() {
+	register("C02", "", ruleQuant)
 }
